@@ -158,12 +158,25 @@ pub fn gen_case(c: &mut Choices) -> Case {
                 }
             }
             4 => {
-                entries.push(format!("get {ks}() {{ return [3, dflt1]; }}"));
-                expected.push(format!("{key_js}: [3, dflt1]"));
+                if c.chance(1, 4) {
+                    // `this` of a getter is the defaults object
+                    entries.push(format!("get {ks}() {{ return [typeof this, dflt1]; }}"));
+                    expected.push(format!("{key_js}: [\"object\", dflt1]"));
+                    label("getter-using-this", &mut labels);
+                } else {
+                    entries.push(format!("get {ks}() {{ return [3, dflt1]; }}"));
+                    expected.push(format!("{key_js}: [3, dflt1]"));
+                }
                 label("getter", &mut labels);
             }
             5 => {
-                entries.push(format!("{ks}() {{ return 4; }}"));
+                if c.chance(1, 4) {
+                    // `super` of an object-literal method is the object's prototype
+                    entries.push(format!("{ks}() {{ return super.toString === undefined ? 1 : 4; }}"));
+                    label("method-using-super", &mut labels);
+                } else {
+                    entries.push(format!("{ks}() {{ return 4; }}"));
+                }
                 expected.push(format!("{key_js}: vr(function () {{ return 4; }}, false)"));
                 label("method", &mut labels);
             }
@@ -203,10 +216,15 @@ pub fn gen_case(c: &mut Choices) -> Case {
             let obj = format!("{{ {}{}[\"al\" + \"pha\"]: 3 }}", entries.join(", "), if entries.is_empty() { "" } else { ", " });
             (obj.clone(), format!("dyn({obj})"))
         }
-        _ => (
-            format!("{{ {} }}", entries.join(", ")),
-            format!("{{ {} }}", expected.join(", ")),
-        ),
+        _ => {
+            let obj = format!("{{ {} }}", entries.join(", "));
+            if labels.iter().any(|l| l == "getter-using-this" || l == "method-using-super") {
+                // such an object cannot be taken apart: it must reach Vue's mergeDefaults whole
+                (obj.clone(), format!("dyn({obj})"))
+            } else {
+                (obj, format!("{{ {} }}", expected.join(", ")))
+            }
+        }
     };
     let src = format!(
         "import {{ defineComponent }} from \"vue\";\nimport {{ dflt1, sh1, fn1, dfn, k1, dobj }} from \"env\";\nexport const Comp = defineComponent((props: {{ {} }} = {default_src}) => () => null);\n",
